@@ -235,15 +235,20 @@ def run(p, report, tier):
         raise AnalysisError("SingleAnnotatorWrapper.query: inner query / mapping vanished")
     ck = kwmap(inner_q[0]).get("candidates")
     def _via_defs(e, depth=0):
-        if names_in(e) & mp_sq:
+        """e denotes index candidates taken from the mapping: the mapping itself, a selection
+        `mapping[...]` of it, a conditional with such an arm, or a name bound to one of these"""
+        if isinstance(e, ast.Name) and e.id in mp_sq:
             return True
-        if depth > 3:
+        if isinstance(e, ast.Subscript) and isinstance(e.value, ast.Name) and e.value.id in mp_sq:
+            return True
+        if isinstance(e, ast.IfExp):
+            return _via_defs(e.body, depth + 1) or _via_defs(e.orelse, depth + 1)
+        if depth > 3 or not isinstance(e, ast.Name):
             return False
-        for nm in names_in(e):
-            for d in ast.walk(sqn):
-                if isinstance(d, ast.Assign) and any(isinstance(t, ast.Name) and t.id == nm for t in d.targets) \
-                        and _via_defs(d.value, depth + 1):
-                    return True
+        for d in ast.walk(sqn):
+            if isinstance(d, ast.Assign) and any(isinstance(t, ast.Name) and t.id == e.id for t in d.targets) \
+                    and _via_defs(d.value, depth + 1):
+                return True
         return False
     okc = ck is not None and _via_defs(ck)
     report.add("R20.3", sq.qual, "inner strategy is queried with the index candidates when a mapping exists",
